@@ -28,7 +28,9 @@ Inductive dcase :=
 Definition stream_case (v dr key nlen nonce pos len data res out : N) : Run.ChaCha.c01case :=
   Run.ChaCha.C01 v dr key nlen nonce pos len data res out.
 
-Definition jh_variant (v : N) : Model.JH.variant := if v =? 256 then Model.JH.Jh256 else Model.JH.Jh512.
+Definition jh_variant (v : N) : Model.JH.variant :=
+  if v =? 224 then Model.JH.Jh224 else if v =? 256 then Model.JH.Jh256
+  else if v =? 384 then Model.JH.Jh384 else Model.JH.Jh512.
 
 Definition sel_model (mac : N) (std no_simd : bool) (level host tf : N) : N :=
   match dispatch_hooked (macro_of mac) no_simd std level (of_mask host) (of_mask tf) with
